@@ -117,17 +117,23 @@ class Visitor(_BaseVisitor[T], abc.ABC):
 
     :param ob: An object to walk.
     """
+    skip_siblings = None
     try:
       self.visit(ob)
     except (self.SkipChildren, self.SkipNode):
       return
     except self.SkipDeparture:           
       pass # not applicable; ignore
+    except self.SkipSiblings as ex:
+      # the children of the node are not affected
+      skip_siblings = ex
     try:
       for child in self.get_children(ob):
           self.walk(child)
     except self.SkipSiblings:
       pass
+    if skip_siblings is not None:
+      raise skip_siblings
     
   def visit(self, ob: T) -> None:
     """Extend the base visit with extensions.
